@@ -136,15 +136,17 @@ let exjl toks =
 (* exw <n> <mid0>: the message-id wrap experiment of harness/h_exchange.c on the model *)
 let exw toks =
   match toks with
-  | n :: mid0 :: _ ->
+  | n :: mid0 :: rest ->
       let n = int_of_string n in
+      let mode = (match rest with m :: _ -> int_of_string m | [] -> 0) in
       let maxr = z_of_int 4 in
       let c = ref (ex_cli_init (zi mid0) Z0) in
       let step i = let (c1, outs) = ex_cli_step maxr !c i in c := c1; outs in
       let total = ref 0 and first = ref (-1) and last = ref (-1) and lresp = ref 0 and lnack = ref 0 in
       (try
         for e = 0 to n + 1 do
-          let piggy = (e = 0 || e = n + 1) in
+          let edge = (e = 0 || e = n + 1) in
+          let piggy = edge && mode = 0 in
           let (mid, tok) =
             match step (ExSend (z_of_int (if piggy then 0 else 1))) with
             | [ExTx (ExReq (m, k, _))] -> (m, k)
@@ -154,7 +156,8 @@ let exw toks =
             if piggy then step (ExRx (ExAckR (mid, tok), true))
             else begin
               let o1 = step (ExRx (ExAckE mid, true)) in
-              let o2 = step (ExRx (ExConR (z_of_int ((7000 + e) land 0xffff), tok), true)) in
+              let sm = z_of_int ((7000 + e) land 0xffff) in
+              let o2 = step (ExRx ((if mode = 0 || edge then ExConR (sm, tok) else ExNonR (sm, tok)), true)) in
               o1 @ o2
             end in
           let nresp = List.length (List.filter (fun o -> match o with ExResp (_, _, k, _) -> k = tok | _ -> false) outs) in
